@@ -30,6 +30,10 @@ func chNode(kind, name string) any {
 		return chStruct{Name: name, Zone: len(name)}
 	case "stringer":
 		return chStringer{name}
+	case "ptrstruct":
+		// a fresh instance with equal content every time (nodes are identified by what they
+		// print as, pointers being followed)
+		return &chStruct{Name: name, Zone: len(name)}
 	}
 	return name
 }
@@ -80,6 +84,8 @@ func nodeName(v any) string {
 		return x.Name
 	case chStringer:
 		return x.n
+	case *chStruct:
+		return x.Name
 	}
 	return fmt.Sprint(v)
 }
@@ -177,6 +183,15 @@ func (s *chSys) apply(op string) bool {
 			count[nodeName(n)]++
 		}
 	}
+	onList := map[uint64]bool{}
+	for _, k := range s.h.keys {
+		onList[k] = true
+	}
+	for k, owners := range s.h.ring {
+		if !onList[k] || len(owners) == 0 {
+			s.r.Failf("after %s: the ring keeps position %x (owners %d) that is not on its sorted key list", op, k, len(owners))
+		}
+	}
 	for n, r := range s.model {
 		if count[n] != r {
 			s.r.Failf("after %s: node %s has %d virtual nodes on the ring, want %d", op, n, count[n], r)
@@ -272,7 +287,11 @@ func (s *chSys) canon() string {
 	// the real ring: virtual-node hashes with their owners, and the node index
 	var ring []string
 	for _, k := range s.h.keys {
-		ring = append(ring, fmt.Sprintf("%x:%v", k, s.h.ring[k]))
+		var owners []string
+		for _, n := range s.h.ring[k] {
+			owners = append(owners, nodeName(n)) // (not %v: pointer nodes would print their addresses)
+		}
+		ring = append(ring, fmt.Sprintf("%x:%v", k, owners))
 	}
 	var nodes []string
 	for n := range s.h.nodes {
@@ -307,7 +326,7 @@ func TestVerifConsistentHash(t *testing.T) {
 		kind string
 		base int
 	}
-	for i, c := range []cfg{{"string", 100}, {"struct", 100}, {"stringer", 100}, {"string", 150}, {"string", 199}, {"string", 333}} {
+	for i, c := range []cfg{{"string", 100}, {"struct", 100}, {"stringer", 100}, {"ptrstruct", 100}, {"string", 150}, {"string", 199}, {"string", 333}} {
 		if !vrt.Shard(i) {
 			continue
 		}
